@@ -511,6 +511,19 @@ def score_monitors(p, o):
     for j, s in enumerate(sc):
         _two_site(s, bad, 'score entry %d' % j)
     times = [F(s[2]) for s in sc]
+    # equal times must appear in SEND order (position of the bundle among the send events of the run)
+    sent = [e[5] for e in o['events'] if e[0] == 'send' and e[5] is not None]
+    pos, used = [], set()
+    for s_ in sc:
+        idx = next((i for i, x in enumerate(sent) if i not in used and x == s_), None)
+        if idx is not None:
+            used.add(idx)
+        pos.append(idx)
+    for a in range(len(sc) - 1):
+        if times[a] == times[a + 1] and pos[a] is not None and pos[a + 1] is not None and pos[a] > pos[a + 1] and sc[a] != sc[a + 1]:
+            bad.append(('score_sorted_stable', None, 'two bundles due at %s s are listed against their send order: %s (sent %d-th) before %s (sent %d-th)'
+                        % (times[a], sc[a][4], pos[a], sc[a + 1][4], pos[a + 1])))
+            break
     if any(b < a for a, b in zip(times, times[1:])):
         bad.append(('score_sorted_stable', None, 'score not ordered by time: %s' % [str(t) for t in times]))
     if not sc or sc[-1][4] != [['m', -1]]:
@@ -862,3 +875,86 @@ def clump_expected(pr, o, mode):
         if any(b < a for a, b in zip(tags, tags[1:])):
             bad.append(('timetags of successive pieces', str(tags), 'non-decreasing'))
     return bad
+
+
+# ------------------------------------------------------------------ round 3 (C07): bundles nested in messages; oracle = the Coq stamping model
+def gen_msgnest(rng, k, rt=False):
+    """A message whose argument is a bundle [lat, elems...] (completion message), sent with send_msg or inside send_bundle,
+    from outside routines and from a (late) routine on every kind of clock; latencies None / negative / 0 / positive / edges."""
+    parents = [None, 'S', ['T', 0], ['T', 1]] + ([] if rt else ['A'])
+    parent = parents[k % len(parents)]
+    form = ['msg', 'msg', 'in_bundle'][(k // len(parents)) % 3]
+    lat = rng.choice(LATS + (EDGE_LATS if rng.random() < 0.3 else []))
+    scale = Fraction(1, 32) if rt else Fraction(1)
+    q_ = lambda: str(Fraction(rng.choice(['1/8', '1/4', '3/8', '1/2', '1'])) * scale)
+    return {'tempos': rng.sample(['2', '1/2', '4'], 2), 'parent': parent, 'form': form, 'lat': lat,
+            'outer': rng.choice([None, '0', '1/4', '-1/4', '2']),
+            'es': gen_elems(rng, lat, 2, valid=rng.random() < 0.85), 'start': q_(), 'adv': q_(), 'ints': rng.random() < 0.4}
+
+
+MSGNEST_HEADER = HEADER_NRT + """
+Fixpoint tags_eqb (a b : selem) {struct a} : bool :=
+  match a, b with
+  | SMsg m, SMsg n => Z.eqb m n
+  | SBundle i _ g es, SBundle i' _ g' es' => Bool.eqb i i' && Z.eqb g g' && list_eqb tags_eqb es es'
+  | _, _ => false
+  end.
+Definition agree (x y : option selem) : bool :=
+  match x, y with Some a, Some b => tags_eqb a b | None, None => true | _, _ => false end.
+"""
+
+
+def msgnest_item(pr, o, mode):
+    """(model: stamp_bundle <mode> T lat es) versus the nested bundle read back from the bytes"""
+    if mode == 'rt':
+        md = '(MRt %s)' % cz(int(o['osc_offset']))
+    else:
+        md = '(MNrt %s)' % cbool(pr['parent'] is not None)
+    obs = 'None' if o.get('raised') else '(Some %s)' % selem(o['nested'])
+    return '(agree (stamp_bundle %s %s %s %s) %s)' % (md, q(o['T']), olat(pr['lat']), clist(pr['es'], elem), obs)
+
+
+# ------------------------------------------------------------------ round 3 (C05): wake-up latency larger than the yielded delta
+def gen_late_prog(rng):
+    """RT: several routines on SystemClock and TempoClocks yield deltas far SMALLER than the time their wake-ups burn (the runner
+    busy-waits 3 ms in a large share of the resumptions): the clock threads run behind by more than a delta most of the time."""
+    tempos = [rng.choice(['1', '2', '1/2']), rng.choice(['2', '4'])]
+    bodies = []
+    for j in range(rng.randint(2, 3)):
+        b = []
+        for _ in range(rng.randint(4, 8)):
+            b.append(['Y', str(Fraction(rng.choice(['1', '1/2', '1/4', '2'])) / 1024)])
+            if rng.random() < 0.4:
+                b.append(['S', rng.choice(['0', '1/8', None, '1/4']), rng.randint(0, 99)])
+        bodies.append(b)
+    clocks = ['S', ['T', 0], ['T', 1], 'S']
+    main = [['P', j, clocks[(j + rng.randrange(4)) % 4]] for j in range(len(bodies))]
+    p = spice(rng, {'tempos': tempos, 'bodies': bodies, 'main': main, 'tail': '0'}, True)
+    p['busy'] = rng.choice(['1/2', '3/4', '1'])
+    return p
+
+
+# ------------------------------------------------------------------ round 3 (C07): equal times + later-sent earlier bundles
+def gen_heap_prog(rng):
+    """NRT: runs of bundles falling on the SAME time, followed by later-sent bundles that are due EARLIER (shorter latency), again and
+    again, from routines and (absolute times) from outside routines: the queue behind the score is reshuffled many times; the score
+    must still list equal times in send order."""
+    lats = ['0', '1/8', '1/4', '1/2', '1', '2']
+    def block(base_m):
+        b, m = [], base_m
+        for _ in range(rng.randint(2, 4)):
+            L = rng.choice(lats[2:])
+            for _ in range(rng.randint(2, 6)):
+                b.append(['S', L, m]); m += 1
+            for _ in range(rng.randint(1, 4)):
+                b.append(['S', rng.choice([l for l in lats if Fraction(l) < Fraction(L)]), m]); m += 1
+            if rng.random() < 0.5:
+                b.append(['Y', rng.choice(['0', '1/8', '1/4'])])
+        return b
+    bodies = [block(100 * j) for j in range(rng.randint(1, 3))]
+    main = block(900)
+    for j in range(len(bodies)):
+        main.insert(rng.randint(0, len(main)), ['P', j, rng.choice(['S', 'A', 'S'])])
+    p = {'tempos': [], 'bodies': bodies, 'main': [a for a in main if a[0] != 'Y'], 'tail': rng.choice(['0', '1/4'])}
+    p['ints'] = rng.random() < 0.3
+    return p
